@@ -1,6 +1,6 @@
 CONSTANTS
   MaxFixed = 2
-  MaxArgs = 4
+  MaxArgs = 3
   VariadicNilPtr = FALSE
   EmitCases = TRUE
 SPECIFICATION Spec
